@@ -563,7 +563,12 @@ func (c Case) model() []dLayer {
 			props := make(map[string]interface{}, len(f.Props))
 			for _, kv := range f.Props {
 				m := kv.V.model()
-				if v, ok := m.(float64); ok && (v != 0 || zeros[kv.V.T] != 3) {
+				// The statement asks for "the same properties with numbers widened to float64": +0 and -0
+				// are the same number, and which spelling of a zero survives depends on the order in which
+				// the layer's value table met them (it is keyed by Go value, where -0 == +0). The sign of a
+				// zero is therefore never demanded; every other float must come back bit for bit.
+				_ = zeros
+				if v, ok := m.(float64); ok && v != 0 {
 					m = exactF(v)
 				}
 				props[string(kv.K)] = m
